@@ -2,6 +2,7 @@ SPECIFICATION Spec
 CONSTANTS
   Mods <- MCMods
   Absent <- MCAbsent
+  Broken <- MCBroken
   Variant = "repaired"
   MaxHistory = 3
 INVARIANT HistoryIndependent
